@@ -42,7 +42,9 @@ class SchedRLock:
         s = CUR
         managed = s is not None and not isinstance(me, tuple)
         if managed:
-            s.yield_point(me, "acquire", self)
+            # coarse mode: a re-entrant acquisition is invisible to the other threads - no scheduling point
+            if not (s.coarse and self.owner is me):
+                s.yield_point(me, "acquire", self)
             while self.owner is not None and self.owner is not me:
                 s.block_on(me, self)
         else:
@@ -60,7 +62,7 @@ class SchedRLock:
         if self.count == 0:
             self.owner = None
         s = CUR
-        if s is not None and not isinstance(me, tuple):
+        if s is not None and not isinstance(me, tuple) and not (s.coarse and self.count > 0):
             s.yield_point(me, "release", self)
 
     __enter__ = acquire
@@ -100,7 +102,8 @@ class _T:
 
 
 class Scheduler:
-    def __init__(self, choose, line_level=False, max_steps=4000):
+    def __init__(self, choose, line_level=False, max_steps=4000, coarse=False):
+        self.coarse = coarse          # True: only lock operations that change ownership are scheduling points
         self.choose = choose          # choose(runnable: list[_T], current: _T|None, trace) -> _T
         self.threads = []
         self.by_ident = {}
@@ -316,7 +319,7 @@ def install():
                 s = CUR
                 if s is not None:
                     t = s.by_ident.get(threading.get_ident())
-                    if t is not None:
+                    if t is not None and not s.coarse:
                         s.yield_point(t, kind, None)
                 return orig(self, *a, **kw)
             return w
@@ -349,17 +352,27 @@ def all_locks(L):
 class Explorer:
     """Stateless DFS over schedules with a preemption bound (CHESS style)."""
 
-    def __init__(self, run_once, bound=2, max_runs=400):
+    def __init__(self, run_once, bound=2, max_runs=400, by_preemptions=False, seed=0):
         self.run_once = run_once      # run_once(choose) -> result (uses a fresh Scheduler)
         self.bound = bound
         self.max_runs = max_runs
+        # by_preemptions: schedules with fewer preemptions first, random order among equals (a budget then covers
+        # ALL non-preemptive thread orders and 1-preemption schedules before sampling the 2-preemption ones)
+        self.by_preemptions = by_preemptions
+        self.rnd = __import__("random").Random(seed)
 
     def explore(self):
         results = []
         stack = [[]]
+        pre = {(): 0}
         seen = set()
         while stack and len(results) < self.max_runs:
-            prefix = stack.pop()
+            if self.by_preemptions:
+                lo = min(pre.get(tuple(p), 0) for p in stack)
+                cands = [i for i, p in enumerate(stack) if pre.get(tuple(p), 0) == lo]
+                prefix = stack.pop(self.rnd.choice(cands))
+            else:
+                prefix = stack.pop()
             key = tuple(prefix)
             if key in seen:
                 continue
@@ -388,8 +401,10 @@ class Explorer:
                     if alt == pick:
                         continue
                     newp = taken[:i] + [alt]
-                    if self._preemptions(choices, newp) <= self.bound:
+                    np_ = self._preemptions(choices, newp)
+                    if np_ <= self.bound:
                         stack.append(newp)
+                        pre[tuple(newp)] = np_
         return results
 
     @staticmethod
